@@ -37,6 +37,7 @@ type C18Case struct {
 	// Decoded: the shared tensor is not the constructed one but what a protobuf round trip of it gives (a
 	// tensor filled in by a decoder, not by the constructor: some lazily set fields are still unset)
 	Decoded  []bool    `json:"decoded,omitempty"`
+	Masked   []bool    `json:"masked,omitempty"` // per shared tensor: it carries a mask (every third element)
 	Progs    [][]C18Op `json:"programs"`
 	MaxProcs int       `json:"gomaxprocs"`
 	Repeat   int       `json:"repeat"`
@@ -69,7 +70,7 @@ func (c *C18Case) NTKey() string {
 	return ""
 }
 
-var c18SharedOps = []string{"At", "Slice", "Iterate", "MultIterate", "PrivateNpy", "PrivateSprintBig", "MinBetweenScalar", "MaxBetweenScalar", "Add", "AddShared", "AddScalar", "ScalarSub", "LtScalar", "Lt", "Sum", "Max", "Min", "Argmax", "Argmin", "ArgAll", "PrivateRefused", "PrivateReuse", "PrivateRefused", "Inner", "MatVecMul", "MatMul", "Dot", "TensorMul", "Clone", "Materialize", "Sprint", "T-safe", "Repeat", "Stack", "Apply", "PrivateUnsafe", "PrivateReturn", "PrivateScalarOther", "PrivateTensorMul"}
+var c18SharedOps = []string{"At", "Slice", "Iterate", "MultIterate", "PrivateNpy", "PrivateSprintBig", "MinBetweenScalar", "MaxBetweenScalar", "Add", "AddShared", "AddScalar", "ScalarSub", "LtScalar", "Lt", "Sum", "Max", "Min", "Argmax", "Argmin", "ArgAll", "PrivateRefused", "PrivateReuse", "PrivateRefused", "PrivateOneElement", "PrivateOneElement", "PrivateScalarOp", "PkgTranspose", "Inner", "MatVecMul", "MatMul", "Dot", "TensorMul", "Clone", "Materialize", "Sprint", "T-safe", "Repeat", "Stack", "Apply", "PrivateUnsafe", "PrivateReturn", "PrivateScalarOther", "PrivateTensorMul"}
 
 // runOp performs one operation and returns a digest of what it delivered.
 func c18RunOp(o C18Op, shared []*tensor.Dense, sharedM []Arr, priv **tensor.Dense) (out string) {
@@ -79,6 +80,9 @@ func c18RunOp(o C18Op, shared []*tensor.Dense, sharedM []Arr, priv **tensor.Dens
 	dig := func(t tensor.Tensor, err error) string {
 		if err != nil {
 			return "err"
+		}
+		if dt, ok := t.(*tensor.Dense); ok && dt.IsMasked() {
+			return fmt.Sprint(t.Shape(), readAll(t), maskBits(dt))
 		}
 		return fmt.Sprint(t.Shape(), readAll(t))
 	}
@@ -149,10 +153,7 @@ func c18RunOp(o C18Op, shared []*tensor.Dense, sharedM []Arr, priv **tensor.Dens
 	case "AddShared":
 		return dig(tensor.Add(s, s))
 	case "AddScalar", "ScalarSub", "LtScalar":
-		var sc interface{} = int32(o.Arg%5 + 1)
-		if isF {
-			sc = float64(o.Arg%5 + 1)
-		}
+		sc := conv(dtByName(s.Dtype().String()), int64(o.Arg%5+1))
 		switch o.Op {
 		case "AddScalar":
 			return dig(tensor.Add(s, sc))
@@ -332,6 +333,42 @@ func c18RunOp(o C18Op, shared []*tensor.Dense, sharedM []Arr, priv **tensor.Dens
 			return "result is not the destination"
 		}
 		return dig(r, err) + fmt.Sprint(readAll(a), readAll(b2))
+	case "PrivateOneElement":
+		// a tensor of one element next to a Go scalar: the kernels and the scalar headers take a path of their own
+		d := dtByName(s.Dtype().String())
+		if !d.IsNum() || d.IsComplex() {
+			d = dtInt32
+		}
+		pa := seqArr(d, []int{1}, int64(o.Arg%4))
+		p := tensor.New(tensor.WithShape([]int{1, 1}[:1+o.Arg%2]...), tensor.WithBacking(mkBacking(d, pa.E)))
+		sc := conv(d, int64(o.Arg%3))
+		var opts []tensor.FuncOpt
+		if o.Arg%5 == 0 {
+			opts = append(opts, tensor.AsSameType())
+		}
+		fns := []func(a, b interface{}, opts ...tensor.FuncOpt) (tensor.Tensor, error){tensor.Gte, tensor.Gt, tensor.Lte, tensor.Lt, tensor.ElEq, tensor.Add, tensor.Sub, tensor.Mul}
+		f := fns[o.Arg%len(fns)]
+		if o.Arg%2 == 0 {
+			return dig(f(p, sc, opts...))
+		}
+		return dig(f(sc, p, opts...))
+	case "PrivateScalarOp":
+		d := dtByName(s.Dtype().String())
+		if !d.IsNum() {
+			d = dtF32
+		}
+		pa := seqArr(d, []int{2, 2}, int64(o.Arg%4))
+		p := tensor.New(tensor.WithShape(2, 2), tensor.WithBacking(mkBacking(d, pa.E)))
+		sc := conv(d, int64(1+o.Arg%3))
+		if o.Arg%2 == 0 {
+			return dig(tensor.Mul(p, sc))
+		}
+		return dig(tensor.Sub(sc, p))
+	case "PkgTranspose":
+		if len(m.Shape) < 2 {
+			return "-"
+		}
+		return dig(tensor.Transpose(s))
 	case "PrivateReturn":
 		p := fresh([]int{2, 2}, int64(o.Arg%5))
 		v, _ := p.Slice(RS{0, 1, 1})
@@ -342,6 +379,19 @@ func c18RunOp(o C18Op, shared []*tensor.Dense, sharedM []Arr, priv **tensor.Dens
 		return "returned"
 	}
 	panic("HARNESS: unknown C18 op " + o.Op)
+}
+
+// maskBits reads a masked tensor's mask in logical order.
+func maskBits(t *tensor.Dense) []bool {
+	var out []bool
+	if t.IsScalar() {
+		return t.Mask()
+	}
+	for _, cc := range coordsOf([]int(t.Shape())) {
+		b, _ := t.MaskAt(cc...)
+		out = append(out, b)
+	}
+	return out
 }
 
 // engFresh: a private tensor of one of the specialised engines.
@@ -389,7 +439,14 @@ func (c *C18Case) Run() string {
 			d = dtByName(c.DTs[i])
 		}
 		arr := seqArr(d, shp, int64(i)*3+1)
-		b, err := Build(arr, c.Layouts[i], nil)
+		var mask []bool
+		if i < len(c.Masked) && c.Masked[i] && len(shp) > 0 {
+			mask = make([]bool, len(arr.E))
+			for k := range mask {
+				mask[k] = k%3 == 0
+			}
+		}
+		b, err := Build(arr, c.Layouts[i], mask)
 		if err != nil {
 			return inconclusive
 		}
@@ -536,6 +593,7 @@ func TestC18(t *testing.T) {
 				// now and then an element type of another size (16-byte and string elements take paths of their own)
 				c.DTs = append(c.DTs, rapid.SampledFrom([]string{"", "", "", "", "complex128", "string", "int8", "float32", "float32", "int64", "uint16"}).Draw(rt, "dt"))
 				c.Decoded = append(c.Decoded, rapid.IntRange(0, 3).Draw(rt, "decoded") == 0)
+				c.Masked = append(c.Masked, rapid.IntRange(0, 4).Draw(rt, "masked") == 0)
 			}
 			for g := 0; g < ng; g++ {
 				n := rapid.IntRange(5, 40).Draw(rt, "plen")
